@@ -15,7 +15,8 @@ EXPLANATION = ("R07.1 per-element classification table of the cleanup loop: with
                "before the next receive or the end of the thread (a queued request is never dropped), Die/disconnect leave the loop. R07.7 the listing cleanup counts over recognises exactly the family (shared with R14.2). R07.8 the writer is switched to the new file (the old one thereby flushed and closed) before cleanup runs (rotation table shared with R01.4). R07.9 names of rotated files sort in the order of rotation: collision table (shared with R06.4)."
                " R07.2 also: the gz encoder writes into the File itself, or its buffering sink is flushed with the result guarding the removal of the original."
                " R07.10 cleanup wiring: the Cleanup given to rotate()/o_rotate() and the background-thread flag reach State::new unchanged (shared configuration-wiring tables, rules/cfgwiring.py)."
-               " R07.11 (shared with R06.2): after a restart the numbering continues above every listed file, compressed ones included (maximum over the listing of plain and .gz files), so descending name order stays newest-first for cleanup.")
+               " R07.11 (shared with R06.2): after a restart the numbering continues above every listed file, compressed ones included (maximum over the listing of plain and .gz files), so descending name order stays newest-first for cleanup."
+               " R07.7 also: the file-name timestamp reader is total on ambiguous local times (earliest/latest, never single()), so cleanup sees every file the writer named.")
 ASSUMPTIONS = ["lexicographic path order of the listing is age order for the configured naming (value-dependent, not decided)", "flate2 finish() completes the gz stream",
                "mpsc channels are FIFO"]
 NOT_DECIDED = ["that lexicographic order is age order (.restart-NNNN siblings, r99999->r100000)", "byte-exact gzip round trip", "interleavings of the cleanup thread with further rotations beyond lock/order facts"]
@@ -57,6 +58,9 @@ def run(R, ctx):
     # index computed from the plain files only gives the newest content the lowest number, and cleanup (descending name order = newest first) removes it first
     R.rule('R07.11', 'numbers of rotated files continue above the kept compressed files after a restart (start index rules shared with R06.2)')
     _c06.start_index(Relabel(R, {'R06.2': 'R07.11'}), ctx)
+    # cleanup counts only the files the family predicate recognises: every timestamp name the writer produces must parse back (incl. the repeated hour
+    # at the end of daylight saving), otherwise those files stay for ever and the kept set is not the newest tail
+    _c06.timestamp_parse_total(R, ctx, rule='R07.7')
 
 def ord_rel(row, a, b):
     """relation of a to b recorded in the row for the ordering atom of names a, b (None if not examined)"""
